@@ -344,7 +344,7 @@ def parse_assumptions(out, names):
             res[nm] = []
         else:
             ax = re.findall(r"^([A-Za-z_][\w\.']*)\s*:", body, flags=re.M)
-            res[nm] = ax
+            res[nm] = [a for a in ax if a not in ("Axioms",)]
     return res
 
 
